@@ -9,7 +9,7 @@ from . import _c19x as X
 ID = 'C19'
 TITLE = 'container lifting maps leaf-wise, preserves shape, and is schedule independent'
 LEAN_FILES = ['Basic', 'Lift', 'Zip', 'Waiter', 'LiftDriver', 'WaiterDriver', 'LiftLemmas', 'ZipLemmas', 'WaiterLemmas', 'ResDec', 'C19',
-              'LiftX', 'LiftXDriver', 'Txt', 'LiftXLemmas', 'TxtLemmas', 'WaiterF', 'WaiterFDriver', 'WaiterFLemmas', 'WaiterLog', 'WaiterLogLemmas']
+              'LiftX', 'LiftXDriver', 'Txt', 'LiftXLemmas', 'TxtLemmas', 'WaiterF', 'WaiterFDriver', 'WaiterFLemmas', 'WaiterLog', 'WaiterLogLemmas', 'LiftXRecLemmas']
 RULE = ('distinct protocol lines on which the implementation returned a value and whose looped argument is a non-empty container '
         '(lift), whose arguments hold at least one sequence (zipper/lens/as_list/as_tuple), or whose structure holds at least one '
         'awaitable (waiter; every completion order is a distinct line)')
